@@ -66,7 +66,7 @@ class AbstractMerge(Contract):
 
 @contract('mosromgr.mostypes.RunningOrder.__add__')
 class RunningOrderAdd(Contract):
-    props = ('C07', 'C09', 'C12')
+    props = ('C07', 'C09', 'C12', 'C14')
 
     def entry(self, E):
         W = E.W
